@@ -23,8 +23,10 @@ func New(less LessFunc) *Tree {
 }
 
 func (t *Tree) Insert(item interface{}) {
-	node := &Node{Item: item, Less: t.Less}
+	// new nodes are red; the root is always black
+	node := &Node{Item: item, Less: t.Less, Red: true}
 	t.Root = t.Root.insert(node)
+	t.Root.Red = false
 	t.Count++
 }
 
